@@ -613,3 +613,87 @@ def derive_spelling_cases():
                  fn("notify_release", [APP, ("r", P("Release"))], None, [emit("released", ["var", "r"])], command=False)]
         out.append(("derive/%s" % label, project(items)))
     return out
+
+
+# ----------------------------------------------------------------------------- one analyzer, several rounds on edited sources
+
+def add_event(case, payload, dep, event, fname):
+    """+ a payload struct with a dependency and a helper fn that emits it (first file in path order)."""
+    c = copy.deepcopy(case)
+    f0 = sorted(c["files"], key=lambda r: r.split("/"))[0]
+    c["files"][f0] = c["files"][f0] + [st(payload, [("d", P(dep))]), st(dep, [("v", P("i32"))]),
+                                       fn(fname, [APP, ("pl", P(payload))], None, [emit(event, ["var", "pl"])], command=False)]
+    return c
+
+
+def add_type_and_user(case, k):
+    """+ a struct (with a dependency) in an EXISTING file and a command in a NEW file that returns it."""
+    c = copy.deepcopy(case)
+    f0 = sorted(c["files"])[-1]
+    c["files"][f0] = c["files"][f0] + [st("Badge%d" % k, [("label", P("String")), ("tone", P("BadgeTone%d" % k))]), en("BadgeTone%d" % k)]
+    c["files"]["src/added/badges_%d.rs" % k] = [fn("list_badges_%d" % k, [("only", P("Option", P("BadgeTone%d" % k)))], P("Vec", P("Badge%d" % k)))]
+    return c
+
+
+def add_field_of_new_type(case, k):
+    """an existing struct gets a field whose type is defined in a new file; if there is no struct a new
+    command parameter does the same."""
+    c = copy.deepcopy(case)
+    c["files"]["src/added/extra_%d.rs" % k] = [st("Extra%d" % k, [("note", P("String"))])]
+    for rel in sorted(c["files"]):
+        for it in c["files"][rel]:
+            if it["kind"] == "struct" and not it.get("unit") and is_serde(it):
+                it["fields"].append({"name": "extra_%d" % k, "ty": P("Option", P("Extra%d" % k)), "serde": [], "validate": []})
+                c["files"]["src/added/extra_%d.rs" % k].append(fn("touch_extra_%d" % k, [("x", P(it["name"]))], None))
+                return c
+    c["files"]["src/added/extra_%d.rs" % k].append(fn("touch_extra_%d" % k, [("x", P("Extra%d" % k))], None))
+    return c
+
+
+def reuse_histories(rng, n):
+    """(label, [round case, ...]): 2-3 closed-world project states, each analysed by the SAME analyzer and
+    generated by the SAME generator: payload struct renamed / removed, event removed and re-added with
+    another payload, a type added to an existing file and used from a new file, a field of a new type,
+    a file removed, another project altogether, the same project again."""
+    out = []
+    bases = [("plain", dict(adversarial())["plain-baseline"]), ("multi-file", dict(adversarial())["multi-file"]),
+             ("channels", dict(adversarial())["channel-only-and-both"])]
+    for i in range(n):
+        bases.append(("xf%d" % i, crossfile_random(rng)))
+        rc = random_case(rng, False)[0]
+        while (rc.get("config") or {}).get("typeMappings"):       # the configuration stays the same over a history
+            rc = random_case(rng, False)[0]
+        bases.append(("rnd%d" % i, strip_events(rc)))
+    for bl, base in bases:
+        ev_a = add_event(base, "ProgressA", "ProgressADep", "progress", "emit_progress")
+        ev_b = add_event(base, "ProgressB", "ProgressBDep", "progress", "emit_progress")
+        other = crossfile_random(rng)
+        smaller = copy.deepcopy(base)
+        if len(smaller["files"]) > 1:
+            victim = sorted(smaller["files"])[-1]
+            if not any(it["kind"] in ("struct", "enum") for it in smaller["files"][victim]):
+                del smaller["files"][victim]
+        hs = {
+            "payload-renamed": [ev_a, ev_b],
+            "event-removed": [ev_a, base],
+            "event-removed-then-other-payload": [ev_a, base, ev_b],
+            "type-added-to-existing-file": [base, add_type_and_user(base, 1)],
+            "two-additions": [base, add_type_and_user(base, 1), add_type_and_user(add_type_and_user(base, 1), 2)],
+            "field-of-new-type": [base, add_field_of_new_type(base, 1)],
+            "addition-then-removal": [base, add_type_and_user(base, 1), base],
+            "other-project": [base, other],
+            "other-project-and-back": [ev_a, other, base],
+            "same-again": [ev_a, ev_a],
+            "file-removed": [base, smaller],
+        }
+        for hl, rounds in hs.items():
+            out.append(("reuse/%s/%s" % (bl, hl), rounds))
+    return out
+
+
+def mapping_dropped_history():
+    """C02-9: a struct analysed while a type mapping covered one of its field types is redefined, and the
+    mapping is dropped from the configuration of the next round: the reused analyzer keeps the old definition."""
+    r0 = project([st("Doc", [("id", P("Uuid")), ("title", P("String"))]), fn("get_doc", [], P("Doc"))], mappings={"Uuid": "string"})
+    r1 = project([st("Doc", [("id", P("i32")), ("title", P("String"))]), fn("get_doc", [], P("Doc"))])
+    return [r0, r1]
